@@ -292,6 +292,11 @@ func (s *rvState) stmt(st pAst.Statement, env *rvEnv) {
 				s.unsup("descending range")
 				return
 			}
+		case 's':
+			// a string is iterated character by character (each a one-character string)
+			for _, r := range []rune(it.s) {
+				items = append(items, rvStr(string(r)))
+			}
 		default:
 			s.unsup("for over " + string(it.k))
 			return
